@@ -5,6 +5,7 @@ import FlVerif.Lemmas.ActivationLoops
 import FlVerif.Lemmas.ActivationLaws
 import FlVerif.Gen.Tables
 import FlVerif.Lemmas.CodeActivation
+import FlVerif.Lemmas.CodeDegreeRule   -- the methods of `Rule` the loops call (theorems `C07.code_deactivate / code_activateWith / code_trigger`)
 
 /-! # C08 — activation methods trigger exactly the rules their definition selects
 
